@@ -11,6 +11,7 @@ from pyvc.sorts import *  # noqa
 from pyvc.state import Heap, TupleImm
 
 REGISTRY = {}          # contract id -> Contract
+MODULE_GLOBALS = {}    # file -> {global name: engine value}
 BY_METHOD = {}         # method / function simple name -> [Contract]
 
 
